@@ -97,24 +97,28 @@ def CTA.init (cond : Int → Bool) : CTA := { cond := cond, vars := fun _ => 0, 
 def enqueueVal (i : Nat) (v : Int) (m : AMon) : AMon :=
   if m.live = true ∧ m.var = i then { m with queue := m.queue ++ [v] } else m
 
-inductive CTAStep : CTA → CTA → Prop
+/-- `flag` is the `triggerWithInitialZeroValue` argument of `Monitor`'s subscription (`counter_impl.go`; regenerated:
+`subs_counter_Monitor`): `OnUpdate` delivers the current value at once only if it is not the zero value or the flag is
+set — otherwise the monitor is registered silently. -/
+inductive CTAStep (flag : Bool) : CTA → CTA → Prop
   | set (s : CTA) (i : Nat) (v : Int) (hne : s.vars i ≠ v) :
-      CTAStep s { s with vars := setAt s.vars i v, mons := s.mons.map (enqueueVal i v) }
+      CTAStep flag s { s with vars := setAt s.vars i v, mons := s.mons.map (enqueueVal i v) }
   | monitor (s : CTA) (i : Nat) :
-      CTAStep s { s with mons := s.mons ++ [{ var := i, live := true, was := false, queue := [s.vars i] }] }
+      CTAStep flag s { s with mons := s.mons ++ [{ var := i, live := true, was := false,
+                                                   queue := (if s.vars i != 0 || flag then [s.vars i] else []) }] }
   | deliver (s : CTA) (j : Nat) (m : AMon) (v : Int) (rest : List Int)
       (hj : s.mons[j]? = some m) (hl : m.live = true) (hq : m.queue = v :: rest) :
-      CTAStep s { s with mons := s.mons.set j { m with was := s.cond v, queue := rest },
-                         counter := if s.cond v != m.was then (if s.cond v then s.counter + 1 else s.counter - 1) else s.counter }
+      CTAStep flag s { s with mons := s.mons.set j { m with was := s.cond v, queue := rest },
+                              counter := if s.cond v != m.was then (if s.cond v then s.counter + 1 else s.counter - 1) else s.counter }
   /-- the repaired unsubscribe function: cancel (drops undelivered values), then withdraw the contribution.
   The two parts are one step here because nothing else touches this monitor's flag in between. -/
   | unmonitor (s : CTA) (j : Nat) (m : AMon) (hj : s.mons[j]? = some m) (hl : m.live = true) :
-      CTAStep s { s with mons := s.mons.set j { m with live := false, was := false, queue := [] },
-                         counter := if m.was then s.counter - 1 else s.counter }
+      CTAStep flag s { s with mons := s.mons.set j { m with live := false, was := false, queue := [] },
+                              counter := if m.was then s.counter - 1 else s.counter }
 
-inductive CTAReach : CTA → CTA → Prop
-  | refl (s : CTA) : CTAReach s s
-  | tail {a b c : CTA} : CTAReach a b → CTAStep b c → CTAReach a c
+inductive CTAReach (flag : Bool) : CTA → CTA → Prop
+  | refl (s : CTA) : CTAReach flag s s
+  | tail {a b c : CTA} : CTAReach flag a b → CTAStep flag b c → CTAReach flag a c
 
 def CTA.quiescent (s : CTA) : Prop := ∀ m ∈ s.mons, m.live = true → m.queue = []
 
